@@ -815,6 +815,90 @@ def check_C04(tier, seed):
 
 
 # ---------------------------------------------------------------------------
+# C13 (arrays and strings), C14 (builtins)
+# ---------------------------------------------------------------------------
+def enum_leg(o, name, xset, shards=None):
+    wd = core.workdir(f"{o.prop}_{name}")
+    files = gen_files(wd, "gen-enum", ["--set", xset], shards or core.NCPU, "e")
+    sem_files_leg(o, name, files, wd)
+    # sensitivity on this leg
+    recs = [r for r in core.read_ndjson(files[0]) if r["obs"]["class"] in ("Value", "Err")][:60]
+    rng = random.Random(3)
+    bad = [corrupt_obs(r, rng) for r in rng.sample(recs, min(10, len(recs)))]
+    bf = os.path.join(wd, "corrupt.ndjson")
+    core.write_ndjson(bf, bad)
+    rr = core.tlc_or_die("TV_Sem.tla", "TV_Sem.cfg", env={"RECS": bf}, workdir_=wd)
+    acc = [v for v in rr.verdicts if v["class"] == "agree" and not (v["rule"] == "U1")]
+    if acc:
+        raise ToolError(f"{name}: sensitivity self-test failed: {len(acc)} corrupted observations accepted")
+    o.legs[-1]["sensitivity_tried"] = len(bad)
+    o.legs[-1]["sensitivity_rejected"] = len(bad) - len(acc)
+    for r in recs[:2]:
+        o.samples.append({"leg": name, "obs_class": r["obs"]["class"], "nodes": len(r["nodes"])})
+
+
+def check_C13(tier, seed):
+    o = Outcome("C13", tier, seed, "model_checking")
+    o.assumptions = [
+        "NlValues.IndexGet / IndexSet (front/back indexing, character-based strings, errors leave the heap unchanged) and NlSem's reference semantics of arrays",
+        "string identity (U2) is outside the documented language: writes into a text that came from a literal evaluated more than once are skipped",
+    ]
+    enum_leg(o, "index-family", "seq")
+    sem_leg(o, "random-seq", ["--family", "seq"], size(tier, 1600, 40000), seed)
+    o.extra["exhaustive"] = True
+    o.extra["rule"] = ("arrays of length 0-6 and strings of 0-6 characters from 1- to 4-byte code points x every index in -(len+2)..len+2 x "
+                       "read / write through an alias / write through a parameter / write through a nested alias, every value type as index "
+                       "and as stored value (complete enumeration); random sequence-heavy programs beyond")
+    return o.finish()
+
+
+def law_files_leg(o, name, files, wd):
+    t0 = time.time()
+    results = run_tv_shards(files, "TV_Rel.tla", "TV_Rel.cfg", wd)
+    counts = {}
+    n = 0
+    for f, r in zip(files, results):
+        o.add_tlc(r)
+        recs = {x["id"]: x for x in core.read_ndjson(f)}
+        n += len(recs)
+        for v in r.verdicts:
+            key = v["class"] + ":" + v["rule"]
+            counts[key] = counts.get(key, 0) + 1
+            o.traces += 1
+            if v["class"] == "mismatch":
+                rec = recs[v["id"]]
+                va = rec["var"]
+                o.violation({"leg": name, "rule": "law:" + v["rule"], "class": va.get("class"), "kind": va.get("kind"),
+                             "msg": va.get("msg"), "loc": va.get("loc"), "text": rec["var_text"]},
+                            {"text": rec["var_text"], "obs": {k: va[k] for k in va if k != "out"}})
+    o.legs.append({"leg": name, "records": n, "verdicts": counts, "wall_s": round(time.time() - t0, 1)})
+
+
+def check_C14(tier, seed):
+    o = Outcome("C14", tier, seed, "model_checking")
+    o.assumptions = [
+        "NlValues.CallBuiltin states the documented behaviour of the seven builtins; where the documentation fixes only the type of the result or that an error is reported, a set of error kinds is accepted",
+        "text -> float is decided for plain decimals that are exact dyadic fractions; other numeric notations are DontKnow (U9); round trips are checked as laws (programs that must evaluate to ja)",
+    ]
+    enum_leg(o, "builtins-family", "builtins")
+    wd = core.workdir("C14_roundtrip")
+    shards = 8
+
+    def gen(i):
+        f = os.path.join(wd, f"rt{i}.ndjson")
+        core.run_nlh(["gen-roundtrip", "--seed", seed * 77 + i, "--n", size(tier, 150, 5000) if i else 0,
+                      "--first-id", i * 1000000 + 1, "--out", f])
+        return f
+    files = [f for f in core.parallel(gen, list(range(shards))) if os.path.getsize(f) > 0]
+    law_files_leg(o, "round-trips", files, wd)
+    o.extra["exhaustive"] = True
+    o.extra["rule"] = ("every builtin x every value shape (null, booleans, ints, floats, numeric / padded / signed / non-numeric / non-ASCII text, "
+                       "arrays, function) x 0-3 arguments, conversion chains, print with every format of up to 4 pieces from {}, {, }, a, space "
+                       "x 0-4 arguments (complete enumeration); number -> text -> number laws on the integer lattice and on random finite floats")
+    return o.finish()
+
+
+# ---------------------------------------------------------------------------
 # C06: operators, exact over the whole range
 # ---------------------------------------------------------------------------
 def corrupt_big(rec, k):
@@ -915,6 +999,8 @@ CHECKS = {
     "C09": check_C09,
     "C11": check_C11,
     "C12": check_C12,
+    "C13": check_C13,
+    "C14": check_C14,
     "C10": check_C10,
     "C02": check_C02,
     "C03": check_C03,
